@@ -544,6 +544,7 @@ class RaceHarness(Harness):
                 loaded = []
                 for el in ch_.schedule:
                     if hasattr(el, "tasks"):
+                        loaded.append(("parallel-clients", el.clients))
                         loaded.append(("parallel", [(t.name, t.operation.type, t.clients, t.iterations, t.warmup_iterations, t.time_period, sorted(t.tags), t.completes_parent, t.any_completes_parent) for t in el.tasks]))
                     else:
                         loaded.append(("task", (el.name, el.operation.type, el.clients, el.iterations, el.warmup_iterations, el.time_period, sorted(el.tags), el.completes_parent, el.any_completes_parent)))
@@ -934,11 +935,12 @@ class RaceHarness(Harness):
         for el in expected:
             if "parallel" in el:
                 cb = el["parallel"].get("completed-by")
+                want.append(("parallel-clients", el["parallel"].get("clients") or sum(t["clients"] for t in el["parallel"]["tasks"])))
                 want.append(("parallel", [sig(t, cb) for t in el["parallel"]["tasks"]]))
             else:
                 want.append(("task", sig(el["task"], None)))
         if loaded != want:
-            names = lambda sch: [[x[0] for x in e[1]] if e[0] == "parallel" else e[1][0] for e in sch]  # noqa
+            names = lambda sch: [[x[0] for x in e[1]] if e[0] == "parallel" else e[1][0] for e in sch if e[0] != "parallel-clients"]  # noqa
             key = "empty-parallel-left" if any(e[0] == "parallel" and not e[1] for e in loaded) else ("tasks-differ" if names(loaded) != names(want) else "properties-differ")
             bad("filter", key, f"include={cfg.get('include')} exclude={cfg.get('exclude')}: loaded schedule {names(loaded)}, reference filter gives {names(want)}" + ("" if key != "properties-differ" else f"; loaded {loaded} expected {want}"))
 
